@@ -138,6 +138,26 @@ PROPS["C12"] = {
 }
 
 
+PROPS["C05"] = {
+    "exhaustive": [
+        {"spec": "MC_ValueStore_quick.tla", "cfg": "MC_ValueStore_quick.cfg"},
+        {"spec": "MC_ValueStore_corrupt.tla", "cfg": "MC_ValueStore_corrupt.cfg"},
+        {"spec": "MC_ValueStore_thorough.tla", "cfg": "MC_ValueStore_thorough.cfg", "tier": "thorough", "timeout": 3000},
+        {"spec": "MC_ValueStore_neg_nolock.tla", "cfg": "MC_ValueStore_neg_nolock.cfg", "expect": "violation"},
+        {"spec": "MC_ValueStore_neg_nocompare.tla", "cfg": "MC_ValueStore_neg_nocompare.cfg", "expect": "violation"},
+        {"spec": "MC_ValueStore_neg_select.tla", "cfg": "MC_ValueStore_neg_select.cfg", "expect": "violation"},
+    ],
+    "drivers": [{"test": "TestValueStore", "trace_spec": "ValueStoreTrace.tla", "trace_cfg": "ValueStoreTrace.cfg", "inv_cfg": {"C05": "ValueStoreTrace_C05.cfg"}}],
+    "assumptions": [
+        "the datastore is linearizable per operation (mutex-wrapped map datastore behind a gate); the interleaving of datastore accesses of concurrent store users is the explored schedule",
+        "actors are settled by a goroutine-state probe (parked at the gate / blocked on the stripe mutex / finished), the clock is the synctest bubble clock",
+        "the stored-key-match clause is judged on the node's write paths (PUT_VALUE handler, PutValue), see DESIGN 4.x",
+        "two keys sharing a stripe lock are chosen by construction (same last byte)",
+    ],
+    "explanation": "ValueStore.tla (datastore accesses and stripe-lock operations as atomic steps, sweeper, clock) is model-checked with three negative controls (no lock, no compare-before-delete, swapped select); the real node (PutValue, PUT_VALUE / GET_VALUE handlers over fake streams, offline GetValue, value GC) runs over a gated datastore with all interleavings of datastore accesses (capped DFS) and sequential histories with clock advances; TLC validates the datastore write log and every read result against ValueStoreTrace.tla.",
+}
+
+
 def overlay_file(scratch, spec):
     return None
 
@@ -379,6 +399,52 @@ def mut_c12_lost_refresh(run):
     return [copy.deepcopy(ev) for j, ev in enumerate(run) if j != i]
 
 
+def mut_c05_downgrade(run):
+    if "nkeys" not in run[0]:
+        return None
+    for i, ev in enumerate(run):
+        if ev["e"] == "DS" and ev["op"] == "put" and ev.get("class") == "valid" and ev["rank"] >= 1:
+            prev = [x for x in run[:i] if x["e"] == "DS" and x["op"] == "put" and x["k"] == ev["k"]]
+            r = copy.deepcopy(run)
+            r.insert(i + 1, dict(r[i], rank=0))
+            r = [x for x in r if x["e"] != "Final"]
+            return r
+    return None
+
+
+def mut_c05_invalid_stored(run):
+    if "nkeys" not in run[0]:
+        return None
+    for i, ev in enumerate(run):
+        if ev["e"] == "DS" and ev["op"] == "put":
+            r = copy.deepcopy(run)
+            r[i]["class"] = "invalid"
+            return [x for x in r if x["e"] != "Final"]
+    return None
+
+
+def mut_c05_fresh_deleted(run):
+    if "nkeys" not in run[0]:
+        return None
+    for i, ev in enumerate(run):
+        if ev["e"] == "DS" and ev["op"] == "put" and ev.get("class") == "valid":
+            r = copy.deepcopy(run)
+            r.insert(i + 1, dict(r[i], op="delete", found=True))
+            return [x for x in r if x["e"] != "Final"]
+    return None
+
+
+def mut_c05_stale_read(run):
+    if "nkeys" not in run[0]:
+        return None
+    for i, ev in enumerate(run):
+        if ev["e"] == "Ret" and ev["op"] == "get" and ev.get("class") == "valid":
+            r = copy.deepcopy(run)
+            r[i]["rank"] = r[i]["rank"] + 7
+            return r
+    return None
+
+
 MUTATIONS = {
     "C01": [mut_c01_unsorted, mut_c01_drop_nearest, mut_c01_resp_event],
     "C02": [mut_c02_unasked],
@@ -386,6 +452,7 @@ MUTATIONS = {
     "C04": [mut_c04_invalid_emit, mut_c04_worse_final],
     "C06": [mut_c06_missing_recipient, mut_c06_foreign_provider],
     "C08": [mut_c08_unnamed, mut_c08_dup],
+    "C05": [mut_c05_downgrade, mut_c05_invalid_stored, mut_c05_fresh_deleted, mut_c05_stale_read],
     "C12": [mut_c12_stranger, mut_c12_self, mut_c12_noevict, mut_c12_lost_refresh],
 }
 
